@@ -428,8 +428,9 @@ pub fn run(args: &Args) -> i32 {
          {direct, main host + Upgrade}, with the client trying to steer Host. Credentials are configured and never supplied. \
          distinct_nontrivial = distinct request tuples.",
     ));
-    rep.assume("HTTP/3 variants are not exercised here; L = 0 and numeric forms like 01/+1 are EITHER");
+    rep.assume("L = 0 and numeric forms like 01/+1 are EITHER; HTTP/3: ping and speedtest over real QUIC on loopback (reverse proxy over HTTP/3 not exercised)");
     rep.assume("ping/speedtest under the paused clock over in-memory sessions; reverse proxy in real time on loopback");
     run_all(&rep, args);
+    crate::props::h3_l2::c18_h3(&rep, args);
     rep.finish()
 }
